@@ -8,9 +8,15 @@ Program (JSON, one line):  {"prog": [stmt...], "sched": [int...], "wrap": bool}
  stmt ::= ["probe", n] | ["await", g] | ["awaitx", g] | ["raise", "exc"|"base"] | ["try", [stmt...]]
         | ["spawn", c, "spawn"|"create", [stmt...]] | ["check"] | ["cancelself"]
         | ["block", "async"|"sync"|"upd", b, [[ty, tag]...], [disp...], [stmt...]]
+        | ["dprobe", n]    lookups with an explicit default (`ctx.state(T, default=X)`) for every type of the family
+        | ["reenter", b]   the scope / update object of block b, which this task has already left, is used for a second
+                           `with` (events repre / reentered / refail / repost): refused or not, the surrounding context
+                           must be what it was
         | ["hold", b]      the scope object of the (async/sync) block b is constructed *here* (`cm = ctx.scope(...)`) and only
                            entered where the block statement stands – later in the same task, possibly in another context
- disp ::= [d, enterScript, exitScript, [[ty, tag]...]]      script ::= "ok" | "raise" | ["wait", g]
+ disp ::= [d, enterScript, exitScript, [[ty, tag]...]]      script ::= "ok" | "raise" | ["wait", g] | "swallow"
+          ("swallow": exit script only – `__aexit__` returns True, asking to suppress the body's exception; a scope's
+          disposables have no such say: the exception still reaches the caller)
           an entry [-1, 0] among the yields = the iterable handed back by __aenter__ raises at that point of its iteration
  sched: at every step the options are the pending gates (sorted) followed by the live tasks (cancel); the next
         int (mod number of options) picks one; when the list is exhausted the remaining gates are released in order.
@@ -81,6 +87,11 @@ def gen_program(rng, depth, ids, allow_spawn=True, p_disp=0.5, p_raise=0.07, p_f
             stmts.append(["raise", rng.choice(["exc", "exc", "base"])])
         elif r < 0.50:
             stmts.append(["try", gen_program(rng, depth - 1, ids, allow_spawn, p_disp, p_raise, p_fault)])
+        elif r < 0.515 and ids["block"] > 0:
+            stmts.append(["reenter", rng.randint(1, ids["block"])])
+        elif r < 0.525:
+            ids["probe"] += 1
+            stmts.append(["dprobe", ids["probe"]])
         elif r < 0.54:
             stmts.append(["check"])
         elif r < 0.56:
@@ -118,7 +129,10 @@ def gen_program(rng, depth, ids, allow_spawn=True, p_disp=0.5, p_raise=0.07, p_f
                         ys.append([rng.randrange(3), ids["inst"]])
                     if rng.random() < 0.06:
                         ys.insert(rng.randint(0, len(ys)), [-1, 0])   # the yielded iterable raises part-way
-                    disps.append([ids["disp"], script(), script(), ys])
+                    ex_script = script()
+                    if ex_script == "ok" and rng.random() < 0.08:
+                        ex_script = "swallow"
+                    disps.append([ids["disp"], script(), ex_script, ys])
             stmts.append(["block", kind, b, sup, disps, gen_program(rng, depth - 1, ids, allow_spawn, p_disp, p_raise, p_fault)])
     return stmts
 
@@ -193,6 +207,7 @@ class Run:
         self.asked: set[int] = set()   # tasks on which cancel() was called by the harness or by themselves
         self.keep: list = []
         self.held: dict[int, object] = {}   # block -> scope object constructed ahead of its `with` (stmt `hold`)
+        self.used: dict[tuple, object] = {}  # (task, block) -> scope / update object the task has left (stmt `reenter`)
         self.blocks: dict[int, list] = {}
         self.cap = _Capture()
         self.root = logging.getLogger()
@@ -315,6 +330,8 @@ class Run:
                     run.ev(t, "dexed", did, out_name(e))
                     raise
                 run.ev(t, "dexed", did, "ok")
+                if ex == "swallow":
+                    return True
 
         return D()
 
@@ -374,6 +391,31 @@ class Run:
                     task = asyncio.get_running_loop().create_task(self.task_main(c, body))
                 self.tasks[c] = task
                 self.ev(t, "spawn", c, how)
+            elif k == "dprobe":
+                vals = []
+                for i, T in enumerate(F):
+                    try:
+                        vals.append(str(ctx.state(T, default=T(v=7000 + st[1])).v))
+                    except BaseException as e:  # noqa: BLE001
+                        vals.append("X" + type(e).__name__)
+                self.ev(t, "dprobe", st[1], ",".join(vals))
+            elif k == "reenter":
+                cm = self.used.get((t, st[1]))
+                blk = self.blocks.get(st[1])
+                if cm is None or blk is None:
+                    continue
+                self.ev(t, "repre", st[1], self.fingerprint())
+                try:
+                    if blk[1] == "async":
+                        async with cm:
+                            self.ev(t, "reentered", st[1])
+                    else:
+                        with cm:
+                            self.ev(t, "reentered", st[1])
+                    self.ev(t, "refail", st[1], "ok")
+                except BaseException as e:  # noqa: BLE001
+                    self.ev(t, "refail", st[1], out_name(e))
+                self.ev(t, "repost", st[1], self.fingerprint())
             elif k == "hold":
                 blk = self.blocks.get(st[1])
                 if blk is not None and blk[1] in ("async", "sync"):
@@ -390,6 +432,7 @@ class Run:
                         cm = self.held.pop(b, None)
                         if cm is None:
                             cm = ctx.scope(f"b{b}", *insts, disposables=[self.make_disp(t, d) for d in disps] if disps else None)
+                        self.used[(t, b)] = cm
                         async with cm:
                             self.note_group(b)
                             self.ev(t, "enter", b)
@@ -404,6 +447,7 @@ class Run:
                         cm = self.held.pop(b, None)
                         if cm is None:
                             cm = ctx.scope(f"b{b}", *insts)
+                        self.used[(t, b)] = cm
                         with cm:
                             self.ev(t, "enter", b)
                             try:
@@ -414,7 +458,9 @@ class Run:
                                 raise
                             self.ev(t, "bodyend", b, "ok", self.pending_cancel())
                     else:
-                        with ctx.updated(*insts):
+                        cm = ctx.updated(*insts)
+                        self.used[(t, b)] = cm
+                        with cm:
                             self.ev(t, "enter", b)
                             try:
                                 await self.exec(t, body)
